@@ -8,6 +8,7 @@ mod wal;
 mod rdf;
 mod conc;
 mod lpg;
+mod adj;
 mod q;
 mod qmeta;
 mod txstress;
@@ -30,6 +31,7 @@ fn main() {
         "rdf" => rdf::main(&opts),
         "conc" => conc::main(&opts),
         "lpg" => lpg::main(&opts),
+        "adj" => adj::main(&opts),
         "q" => q::main(&opts),
         "qprobe" => q::probe(&opts),
         "qmeta" => qmeta::main(&opts),
